@@ -42,7 +42,13 @@ func c12Order(sym int) int {
 	return c12Orders[sym%5]
 }
 
+// c12Marker: symbol 11 is a participant with the priority marker but without Order() (class 2).
+const c12Marker = 11
+
 func c12Sym(sym int) string {
+	if sym == c12Marker {
+		return "M"
+	}
 	if sym >= 10 {
 		return "N"
 	}
@@ -95,7 +101,7 @@ func c12Direct(c *core.Ctx) {
 		maxLen = 7
 	}
 	gen := func(yield func(c12Case) bool) {
-		seqs(maxLen, 11, func(s []int) bool { return yield(c12Case{Seq: s}) })
+		seqs(maxLen, 12, func(s []int) bool { return yield(c12Case{Seq: s}) })
 	}
 	Cases(c, gen, func(c *core.Ctx, cs c12Case) {
 		in := make([]any, len(cs.Seq))
@@ -109,6 +115,9 @@ func c12Direct(c *core.Ctx) {
 				in[i] = &scen.ElemO{Part: p}
 			default:
 				in[i] = &scen.ElemN{Part: p}
+				if s == c12Marker {
+					in[i] = &scen.ElemM{Part: p}
+				}
 			}
 			idx[in[i]] = i
 		}
@@ -198,6 +207,11 @@ func c12RunSite(cs c12Case) (names []string, shared *scen.RT, o *scen.StartObs) 
 				x := &scen.RunO{Part: p}
 				comps, parts = append(comps, x), append(parts, &x.Part)
 			default:
+				if s == c12Marker {
+					x := &scen.RunM{Part: p}
+					comps, parts = append(comps, x), append(parts, &x.Part)
+					break
+				}
 				x := &scen.RunN{Part: p}
 				comps, parts = append(comps, x), append(parts, &x.Part)
 			}
@@ -211,6 +225,11 @@ func c12RunSite(cs c12Case) (names []string, shared *scen.RT, o *scen.StartObs) 
 				x := &scen.LoadO{Part: p, Doc: doc}
 				loaders, parts = append(loaders, x), append(parts, &x.Part)
 			default:
+				if s == c12Marker {
+					x := &scen.LoadM{Part: p, Doc: doc}
+					loaders, parts = append(loaders, x), append(parts, &x.Part)
+					break
+				}
 				x := &scen.LoadN{Part: p, Doc: doc}
 				loaders, parts = append(loaders, x), append(parts, &x.Part)
 			}
@@ -235,6 +254,10 @@ func c12RunSite(cs c12Case) (names []string, shared *scen.RT, o *scen.StartObs) 
 				comps, parts = append(comps, x), append(parts, &x.Part)
 			case lazy:
 				x := &scen.ProcNZ{}
+				x.Part = p
+				comps, parts = append(comps, x), append(parts, &x.Part)
+			case s == c12Marker:
+				x := &scen.ProcM{}
 				x.Part = p
 				comps, parts = append(comps, x), append(parts, &x.Part)
 			default:
@@ -291,7 +314,7 @@ func c12Sites(c *core.Ctx) {
 			if c.Thorough() {
 				maxLen = 4
 			}
-			seqs(maxLen, 11, func(s []int) bool {
+			seqs(maxLen, 12, func(s []int) bool {
 				n := len(s)
 				for k := 0; k < factorialInt(n); k++ {
 					if ok = yield(c12Case{Seq: s, Site: site, Perm: scen.NthPerm(n, k)}); !ok {
